@@ -8,7 +8,7 @@ from vlib.proto import hexs, unhex
 from checks import rtcomp
 
 HARNESS = "api_rt"
-NS1, NS2 = "urn:verif:rtx1", "urn:verif:rtx2"
+NS1, NS2 = "urn:verif:rtx1", "urn:verif:rtx2?a=1&b=2"
 YANG1 = """module rtx1 { yang-version 1.1; namespace "urn:verif:rtx1"; prefix a;
   import ietf-yang-metadata { prefix md; }
   md:annotation hint { type string; }
@@ -33,7 +33,7 @@ YANG1 = """module rtx1 { yang-version 1.1; namespace "urn:verif:rtx1"; prefix a;
   notification ev { leaf msg { type string; } leaf sev { type int64; } }
 }
 """
-YANG2 = """module rtx2 { yang-version 1.1; namespace "urn:verif:rtx2"; prefix a; import rtx1 { prefix r1; }
+YANG2 = """module rtx2 { yang-version 1.1; namespace "urn:verif:rtx2?a=1&b=2"; prefix a; import rtx1 { prefix r1; }
   import ietf-yang-metadata { prefix md; }
   md:annotation tag { type string; }
   augment "/r1:top" { leaf aug { type string; } container ac { presence "p"; leaf in2 { type string; } leaf-list al { type string; } } }
@@ -61,9 +61,9 @@ def to_xml(nodes, parent_mod=None):
         tag = n.name.encode()
         o = b"<" + tag
         if n.mod != parent_mod:
-            o += b' xmlns="' + ns.encode() + b'"'
+            o += b' xmlns="' + xesc(ns.encode(), True) + b'"'
         if n.meta:
-            o += b' xmlns:m1="' + NS1.encode() + b'" xmlns:m2="' + NS2.encode() + b'"'
+            o += b' xmlns:m1="' + xesc(NS1.encode(), True) + b'" xmlns:m2="' + xesc(NS2.encode(), True) + b'"'
             for k, v in n.meta:
                 o += (b" m2:" if k == "tag" else b" m1:") + k.encode() + b'="' + xesc(v, True) + b'"'
         if n.kind in ("leaf", "leaflist"):
@@ -302,7 +302,7 @@ def run_rtx(cx, laws=("roundtrip", "independent")):
         r = ri.get(str(i), ["err", "NoReply"])
         base = {"xml": x.decode("utf-8", "replace")[:3000], "json": j.decode("utf-8", "replace")[:3000], "reply": r[:2]}
         if kind == "f49":
-            if r[0] == "ok" and rtcomp.expat_structure(unhex(r[2])) is None and b'xmlns:a="urn:verif:rtx1"' in unhex(r[2]) and b'xmlns:a="urn:verif:rtx2"' in unhex(r[2]):
+            if r[0] == "ok" and rtcomp.expat_structure(unhex(r[2])) is None and unhex(r[2]).count(b"xmlns:a=") >= 2:
                 cx.fail("rtx", "XML output is not well-formed (two xmlns:a declarations on one element)", dict(base, xml_out=unhex(r[2]).decode(), triage="F49"))
             continue
         if kind == "leak":
